@@ -40,13 +40,19 @@ BUILTIN = set(dir(di.DataFrame()))
 @st.composite
 def _value(draw, n):
     """A value plan for construction / assignment: how long it is relative to nrow."""
-    how = draw(st.sampled_from(["full", "full", "full", "scalar", "one", "other", "twod", "twod_view", "zerod"]))
+    how = draw(st.sampled_from(["full", "full", "full", "scalar", "one", "other", "twod", "twod_view", "zerod", "other_iter", "full_iter"]))
     kind = draw(st.sampled_from(KINDS))
     if how == "full":
         return {"how": how, "kind": kind, "vals": draw(gen.values(kind, n))}
     if how in ("scalar", "one", "zerod"):
         v = draw(gen.values(kind, 1, na="none" if kind in ("f", "s", "u") else None))
         return {"how": how, "kind": kind, "vals": v}
+    if how == "full_iter":
+        return {"how": how, "kind": draw(st.sampled_from(["i", "f", "s", "b"])), "vals": draw(gen.values("i", n)), "form": draw(st.integers(0, 2))}
+    if how == "other_iter":
+        # a one-shot iterable (generator, map, iterator) that yields more or fewer values than there are rows
+        m = draw(st.integers(2, n + 3).filter(lambda x: x != n))
+        return {"how": how, "kind": "i", "vals": draw(gen.values("i", m)), "form": draw(st.integers(0, 2))}
     if how == "other":
         m = draw(st.integers(2, n + 3).filter(lambda x: x != n))
         return {"how": how, "kind": kind, "vals": draw(gen.values(kind, m))}
@@ -110,6 +116,15 @@ def _mk_value(v, n):
     if v["how"] == "zerod":
         # a zero-dimensional array: scalar-like, so it may be broadcast or rejected - but never stored as it is
         return build.np_array(kind, vals).reshape(()), "zerod"
+    if v["how"] in ("other_iter", "full_iter"):
+        kind = "i"
+        if v["how"] == "full_iter":
+            vals = (vals * (n // max(len(vals), 1) + 1))[:n] if vals else [0] * n
+        elif len(vals) == n:
+            vals = vals + vals[:1]
+        py = [int(x) for x in vals]
+        it = [(x for x in py), map(int, py), iter(py)][v.get("form", 0)]
+        return it, len(py)
     if v["how"] == "other":
         if len(vals) == n:
             vals = vals + vals[:1]
@@ -192,6 +207,8 @@ def _construct(c, ctx):
     lens = []
     for nm, v in zip(c["names"], c["vals"]):
         val, ln = _mk_value(v, n)
+        if v["how"].endswith("_iter"):
+            val = np.array(list(val), dtype=np.int64)          # the constructor is not claimed to take one-shot iterables
         kw[nm] = val
         lens.append(ln)
     real = [l for l in lens if isinstance(l, int)]
@@ -510,6 +527,14 @@ def _transform(op, x, y, s, names, n, z=None):
                 raise Violation("grouped modify stored a group-wise result whose length differs from its group",
                                 nrow=n, groups=groups, stored=len(dict.__getitem__(out, "bad")))
             return out, None
+        if a % 4 == 1 and len(names) >= 2:
+            # the group-wise edit replaces a column that is already there (not the last one): it keeps its place
+            target = names[(a // 4) % (len(names) - 1)]
+            try:
+                out = x.group_by(first).modify(**{target: lambda d: d[target]})
+            finally:
+                x._group_colnames = ()
+            return out, list(names)
         out = x.group_by(first).modify(gsize=lambda d: d.nrow)
         x._group_colnames = ()
         return out, list(names) + (["gsize"] if "gsize" not in names else [])
